@@ -156,6 +156,9 @@ def command(line):
         return "(RAddRealm %s %s)" % (idx, config(t))
     if c == "rmrealm":
         return "(RRemoveRealm %s)" % n(t.next())
+    if c == "rtick":
+        idx = n(t.next())
+        return "(ROp %s (OTick %s))" % (idx, n(t.next()))
     if c == "do":
         idx = n(t.next())
         k = t.next()
